@@ -87,6 +87,9 @@ class Shapes:
             return ('ref', self.of(s[:-1]))
         if s.endswith('*'):
             return ('ptr', self.of(s[:-1]))
+        ma = re.match(r'^(.*)\[(\d+)\]$', s)
+        if ma:
+            return ('vec', self.of(ma.group(1)), int(ma.group(2)))
         if s == 'bool':
             return ('bool',)
         if s in INT_BITS:
